@@ -50,7 +50,11 @@ class FullGen:
             if r == 2:
                 return ["bin", "*", ["fn", "VAL", [["str", self.d(st.sampled_from(["12", "3", "7.5"]))]]], ["fn", "ABS", [inner]]]
             return ["fn", "ABS", [["fn", "INT", [["bin", "-", inner, ["num", "1", 1]]]]]]
-        return self.g.num(dep)
+        x = self.g.num(dep)
+        if self.d(st.integers(0, 11)) == 0:
+            # an operand that starts with a unary operator
+            x = ["neg", x] if self.d(st.booleans()) or x[0] == "neg" else ["not", self.g.integer(min(dep, 1))]
+        return x
 
     def es(self):
         dep = self.d(st.integers(0, self.operand_depth))
@@ -153,6 +157,10 @@ class FullGen:
     def print_stmt(self):
         n = self.d(st.integers(0, 4))
         items = []
+        if self.d(st.integers(0, 7)) == 0:
+            # a juxtaposed string literal right after an item that starts with a unary operator: PRINT "A="-A"B"
+            items = [["e", ["str", "A="]], ["e", ["neg", self.g.num_leaf()] if self.d(st.booleans()) else ["not", self.g.int_leaf()]], ["e", ["str", "B"]]]
+            self.kinds.add("print_juxtaposition_after_unary")
         for i in range(n):
             r = self.d(st.integers(0, 5))
             if r < 2:
@@ -165,7 +173,11 @@ class FullGen:
         fixed = []
         for it in items:
             if fixed and fixed[-1][0] == "e" and it[0] == "e":
-                fixed.append(["s", ";"])
+                # juxtaposition is kept only where no token can glue: one of the two neighbours is a string literal
+                if fixed[-1][1][0] == "str" or it[1][0] == "str":
+                    self.kinds.add("print_juxtaposition")
+                else:
+                    fixed.append(["s", ";"])
             fixed.append(it)
         r = self.d(st.integers(0, 9))
         if r == 0:
@@ -345,7 +357,7 @@ def full_programs(draw, switches=frozenset(), max_lines=10, operand_depth=1, wit
                 # IF in its forms; an IF is the last statement of its line
                 fg.kinds.add("if")
                 c = g.cond(2)
-                form = draw(st.sampled_from(["plain", "line", "else", "elseline", "elseif"]))
+                form = draw(st.sampled_from(["plain", "line", "else", "elseline", "elseif", "line_elseif"]))
                 def one():
                     s_ = fg.misc() if draw(st.booleans()) else fg.device()[0]
                     if s_[0] in ("rem", "data"):  # REM / unquoted DATA would swallow a following ELSE
@@ -370,7 +382,11 @@ def full_programs(draw, switches=frozenset(), max_lines=10, operand_depth=1, wit
                     c2 = g.cond(1, allow_bare=not g.on("ifelse_bare_numeric"))
                     g.in_ifelse_cond = False
                     fin = ["stmts", one()] if (draw(st.booleans()) or g.on("elseif_needs_else")) else None
-                    stmts.append(["if", c, ["stmts", one()], ["stmts", [["if", c2, ["stmts", one()], fin]]]])
+                    if fin is not None and draw(st.integers(0, 3)) == 0:
+                        fin = ["line", draw(st.sampled_from(nums))]
+                    then = ["line", draw(st.sampled_from(nums))] if form == "line_elseif" else ["stmts", one()]
+                    then2 = ["line", draw(st.sampled_from(nums))] if draw(st.integers(0, 3)) == 0 else ["stmts", one()]
+                    stmts.append(["if", c, then, ["stmts", [["if", c2, then2, fin]]]])
                 break
             else:
                 stmts.append(fg.misc())
